@@ -26,7 +26,7 @@ PLAN = {
     "C03": dict(engine="vsim", level="exploration", extra=["vfront"]),
     "C04": dict(engine="vsim", level="exploration"),
     "C05": dict(engine="vsim", level="exploration"),
-    "C06": dict(engine="vsim", level="fault_enumeration", extra=["vproc"]),
+    "C06": dict(engine="vsim", level="fault_enumeration", extra=["vproc", "vstore"]),
     "C07": dict(engine="vsim", level="exploration"),
     "C08": dict(engine="vsim", level="exploration"),
     "C09": dict(engine="vsim", level="exploration"),
